@@ -1319,6 +1319,26 @@ impl<'a> Gen<'a> {
     fn stmt(&mut self, depth: usize) -> Node {
         self.budget -= 1;
         let deep = depth < self.cfg.max_depth;
+        if self.in_async && self.holes_left >= 2 && self.rng.chance(0.04) {
+            // Promise.all over then-derived members whose values are fresh objects, the members
+            // being raw holes (host promises settled in any order, or plain values)
+            let mut items: Vec<String> = Vec::new();
+            while items.len() < 3 {
+                match self.hole_raw(false) {
+                    Some(h) => items.push(h),
+                    None => break,
+                }
+            }
+            if items.len() >= 2 {
+                self.tag("promise-all-derived-members");
+                let a = self.fresh("a");
+                let wrapped: Vec<String> = items.iter().map(|it| format!("Promise.resolve({}).then((v: any) => ({{ n: v, l: [{{}}] }}))", it)).collect();
+                return Node::leaf(format!(
+                    "{{ const {a}: any = await (async (): Promise<any> => Promise.all([{}]))(); const junk: any[] = [{{}}, {{}}]; __log.push(\"pa:\" + JSON.stringify({a}) + junk.length); }}",
+                    wrapped.join(", ")
+                ));
+            }
+        }
         for _ in 0..8 {
             let r = self.rng.below(100);
             match r {
@@ -2078,6 +2098,9 @@ pub const MATRIX_EXT: &[&str] = &[
     /* 109 */ r#"((m: any) => { const out: any[] = []; m.forEach((x: any, k: any) => { if (out.length === 0) { m.clear(); [{}, {}, {}]; } out.push({ v: x.v, k: k.id }); }); return out; })(new Map(@A.map((o: any) => [{ id: o.v }, o])))"#,
     /* 110 */ r#"((st: any) => { const out: any[] = []; st.forEach((x: any) => { if (out.length === 0) { st.clear(); [{}, {}, {}]; } out.push({ v: x.v }); }); return out; })(new Set(@A.map((o: any) => ({ v: o.v }))))"#,
     /* 111 */ r#"((a: any[]) => Array.from({ length: 3, 0: a[0], get 1() { a.length = 0; [{}, {}]; return { v: @N }; }, 2: a[1] } as any, (o: any) => o ?? { v: -1 }))(@A.concat([{ v: 1 }]))"#,
+    /* 116 */ r#"((m: any) => { const out: any[] = []; m.forEach((x: any, k: any) => { if (out.length === 0) { for (const kk of [...m.keys()]) { if (kk !== k) m.delete(kk); } const junk: any[] = []; for (let i = 0; i < 40; i++) junk.push({ i: i }); } out.push({ v: x ? x.v : -1, k: k }); }); return out; })(new Map(@A.map((o: any, i: number) => ["k" + i, { v: o.v, l: [{}] }])))"#,
+    /* 117 */ r#"((st: any) => { const out: any[] = []; st.forEach((x: any) => { if (out.length === 0) { for (const y of [...st]) { if (y !== x) st.delete(y); } const junk: any[] = []; for (let i = 0; i < 40; i++) junk.push({ i: i }); } out.push({ v: x ? x.v : -1 }); }); return out; })(new Set(@A.map((o: any) => ({ v: o.v, l: [{}] }))))"#,
+    /* 118 */ r#"((a: any[]) => { const out: any[] = []; a.forEach((x: any, i: number) => { if (i === 0) { a.length = 1; const junk: any[] = []; for (let j = 0; j < 40; j++) junk.push({ j: j }); } out.push({ v: x ? x.v : -1 }); }); return out; })(@A.map((o: any) => ({ v: o.v, l: [{}] })).concat([{ v: 1 }, { v: 2 }]))"#,
     /* 113 */ r#"(() => { const rs: any[] = []; const out: any[] = []; Promise.all(@A.map((o: any) => new Promise((res: any) => { rs.push(res); }).then((x: any) => ({ v: x, l: [{}], from: o.v })))).then((all: any[]) => { for (const x of all) out.push(x); }); rs.forEach((f: any, i: number) => { f(i); [{}, {}]; }); return out; })()"#,
     /* 114 */ r#"(() => { const rs: any[] = []; const out: any[] = []; Promise.allSettled(@A.map((o: any, i: number) => new Promise((res: any, rej: any) => { rs.push(i % 2 ? rej : res); }).then((x: any) => ({ v: x, l: [{}] }), (e: any) => { throw { v: e, why: [{}] }; }))).then((all: any[]) => { for (const x of all) out.push({ v: (x.value ?? x.reason).v, s: x.status }); }); rs.forEach((f: any, i: number) => { f(i); [{}, {}]; }); return out; })()"#,
     /* 115 */ r#"(() => { const rs: any[] = []; const out: any[] = []; Promise.race(@A.map((o: any) => new Promise((res: any) => { rs.push(res); }).then((x: any) => ({ v: x, l: [{}] })))).then((w: any) => { out.push(w); }); Promise.any(@A.map((o: any) => new Promise((res: any) => { rs.push(res); }).then((x: any) => ({ v: x, m: [{}] })))).then((w: any) => { out.push(w); }); rs.reverse().forEach((f: any, i: number) => { f(i); [{}, {}]; }); return out; })()"#,
